@@ -595,12 +595,16 @@ def invalid_case(draw):
             p["match_columns"] = [p["column_name"]]
         else:
             o["parameters"] = ["not", "a", "dict"]
-    return {"ops": ops, "kind": kind}
+    # the same kind of operation once more, valid, before or after the faulty one (per-kind bookkeeping)
+    twin = draw(st.sampled_from(["none", "after", "before", "after"]))
+    if twin != "none":
+        ops.insert(i + 1 if twin == "after" else i, copy.deepcopy(base[i]["op"]))
+    return {"ops": ops, "kind": kind, "twin": twin}
 
 
 def oracle_invalid(case):
     from hed.tools.remodeling.remodeler_validator import RemodelerValidator
-    out = Outcome(nontrivial=True, classes=("invalid:" + case["kind"],))
+    out = Outcome(nontrivial=True, classes=("invalid:" + case["kind"], "valid-twin:" + case.get("twin", "none")))
     try:
         msgs = RemodelerValidator().validate(copy.deepcopy(case["ops"]))
     except Exception as exc:  # noqa
@@ -619,4 +623,4 @@ def describe(case):
 def parts(tier):
     q = tier == "quick"
     return [Part("run", oracle_run, strategy=run_case(), n=1600 if q else 48000, describe=describe),
-            Part("invalid", oracle_invalid, strategy=invalid_case(), n=300 if q else 8000, describe=describe)]
+            Part("invalid", oracle_invalid, strategy=invalid_case(), n=800 if q else 16000, describe=describe)]
